@@ -1,13 +1,13 @@
 SPECIFICATION Spec
 CONSTANTS
   AliasKeys = FALSE
-  NsU = {1, 2, 3}
-  ClsU = {"A", "B", "X", "Z"}
+  NsU = {1, 3}
+  ClsU = {"A", "B", "Z"}
   KeyU = {1, 2}
   ValS = {"unset", "null", "v1"}
   ValT = {"unset", "v1"}
   ValU = {"unset", "v1"}
-  BadU = {"none", "undeclared"}
+  BadU = {"none", "undeclared", "wrongtype"}
   GenDepth = 0
 INVARIANT ImplRefinesReq
 INVARIANT ReqWellFormed
